@@ -12,6 +12,7 @@ import (
 	"github.com/dadrus/heimdall/verif/props/c08"
 	"github.com/dadrus/heimdall/verif/props/c09"
 	"github.com/dadrus/heimdall/verif/props/c10"
+	"github.com/dadrus/heimdall/verif/props/c11"
 	"github.com/dadrus/heimdall/verif/props/c12"
 	"github.com/dadrus/heimdall/verif/props/c13"
 	"github.com/dadrus/heimdall/verif/props/c15"
@@ -35,6 +36,7 @@ func main() {
 		c08.Check(),
 		c09.Check(),
 		c10.Check(),
+		c11.Check(),
 		c12.Check(),
 		c13.Check(),
 		c15.Check(),
